@@ -56,19 +56,20 @@ def run(ctx):
     ctx.run_cbmc(jobs)
     ctx.functions.update(['yytbl_data_compress', 'min_int_size', 'yytbl_data_geti', 'yytbl_data_seti'])
     tree = ctx.ensure_tree()
-    names = ['lit1', 'sc1', 'bol1', 'tc_fixed_trail', 'nul1', 'rej1'] if quick else None
+    names = ['lit1', 'sc1', 'bol1', 'tc_fixed_trail', 'nul1', 'rej1', 'kw_many'] if quick else None
     specs = [s for s in common.select(ctx, corpus.specs(names=names)) if 'combi' not in s.tags and not s.lex_compat]
     if not quick:
         specs = specs[:40]
-    optsets = [('Cem', []), ('C', ['-C']), ('Ce', ['-Ce']), ('Cfe', ['-Cfe']), ('Cf8', ['-Cf', '-8']), ('CFe', ['-CFe']), ('CF8', ['-CF', '-8']), ('Ca', ['-Ca'])]
+    optsets = [('Cem', []), ('C', ['-C']), ('Ce', ['-Ce']), ('Cfe', ['-Cfe']), ('Cf8', ['-Cf', '-8']), ('CFe', ['-CFe']), ('CF8', ['-CF', '-8']), ('Ca', ['-Ca']),
+               ('Cfae', ['-Cfae']), ('CFae', ['-CFae']), ('Cfa8', ['-Cfa', '-8'])]
     if quick:
-        optsets = [o for o in optsets if o[0] in ('Cem', 'Cfe', 'CFe', 'Cf8', 'Ca')]
+        optsets = [o for o in optsets if o[0] in ('Cem', 'Cfe', 'CFe', 'Cf8', 'Ca', 'Cfae', 'CFae')]
     for s in specs:
         for oname, opts in optsets:
             full = any(o.startswith('-Cf') or o.startswith('-CF') for o in opts)
             if full and (s.tags & {'reject', 'vartrail'} or (s.has_trailing and 'bar' in s.tags)):
                 continue
-            roundtrip(ctx, tree, s, oname, opts, L=(3 if quick else 4))
+            roundtrip(ctx, tree, s, oname, opts, L=((2 if s.name in ('c_like', 'kw_many') else 3) if quick else 4))
     format_checks(ctx, tree)
     ctx.assume('behavioural equality of serialized and in-code tables is decided by running both real scanners on EVERY string up to length 3/4 over one representative byte per input class plus NUL and 0xFF (exhaustive enumeration of a finite set, not a solver query: the generated reader exceeded the cbmc budget, see DESIGN); the solver decides the width-compression kernel of the writer')
     ctx.assume('cbmc 6.11 + MiniSat sound')
